@@ -32,6 +32,9 @@ CLAIMED = {
  "C18": dict(level="exploration", tech="deterministic simulation: 2-6 simulated caller tasks on disjoint instances, each at its own forced SIMD level, interleaved by a seeded baton scheduler at every kernel dispatch/detect/reader call; Solo oracle (each task re-run alone); one process per search shard; shrinking and exact replay",
    text="Seeded search over interleavings of complete operation sequences on disjoint Hasher/OutputReader instances and one-shot calls; every operation must return the bytes it returns when its task runs alone. The Rust detection cache cannot be put under the scheduler (stated in evidence).",
    note="Interleaving granularity is the hook sites; C instances join in the C06/C18-C families.", ref="DESIGN.md §3 C18"),
+ "C06": dict(level="exploration", tech="deterministic simulation: the C library as a node driven through blake3_hasher_* by seeded histories (update fragmentation, finalize/finalize_seek/reset/struct-copy interleavings, per-run CPU feature mask, scripted TBB join seam); SpecModel and the Rust crate as twin oracles; shrinking and exact replay",
+   text="Seeded search over C API histories on both kernel flavours (assembly and C intrinsics, compiled from the working tree) under random subsets of the detected feature mask; every output is compared with SpecModel and with the Rust crate on the same history; finalize must leave the hasher fields unchanged, reset must restore the initial fields, the two derive-key initialisers must agree, zero-length calls are no-ops, canaries guard every output buffer.",
+   note="Trusted: SpecModel; BLAKE3_TESTING exposes g_cpu_features; oneTBB is absent, its contract is played by the simulator's join seam. Windows/MSVC/NEON builds are outside the claim.", ref="DESIGN.md §3 C06"),
 }
 NA = {
  "C01": "one-shot hash/keyed_hash/derive_key are pure functions of their arguments: no history, schedule, clock or fault exists for a simulator to control; input search alone would be fuzzing, a different technique family",
